@@ -1,7 +1,9 @@
 #!/bin/bash
-# tools/seedsweep.sh — every stored seeded change against its check (sequential: each one modifies /repo's working tree)
+# tools/seedsweep.sh [glob] — every stored seeded change (or those matching the glob, e.g. 'C0[1-4]-[56]') against its
+# check (sequential: each one modifies /repo's working tree)
 cd /verif
-for d in seeded/C*/; do
+pat=${1:-C*}
+for d in seeded/$pat/; do
   id=$(basename $d); prop=${id%-*}
   if ! git -C /repo apply --check /verif/$d/patch.diff 2>/dev/null; then echo "$id DOES-NOT-APPLY"; continue; fi
   out=$(tools/seedtest.sh /verif/$d/patch.diff $prop 2>&1 | tail -4)
